@@ -46,6 +46,8 @@ pub enum TraceEvent {
         /// this was the outermost head and the whole cycle was finalized now
         finalized: bool,
         value_converged: bool,
+        /// changed_at, durability and the untracked flag equal those of the previous iteration
+        metadata_converged: bool,
         /// the flattened input edges equal those of the head's previous provisional memo
         deps_stable: bool,
     },
